@@ -156,6 +156,21 @@ impl<'a, 't> Gen<'a, 't> {
         v
     }
     fn chars(&mut self) -> Vec<char> {
+        // rarely a string at or beyond the sizes a length field may have
+        if self.t.ratio(1, 80) && self.g.want("LONG_STRING_LITERAL") {
+            let n = *self.t.pick(&[255usize, 256, 1000, 65_536, 70_000]);
+            let step = 1 + self.t.below(7);
+            return (0..n)
+                .map(|i| {
+                    let c = (33 + ((i * step + i / 89) % 90) as u8) as char;
+                    if c == '\'' || c == '"' || c == '$' {
+                        'q'
+                    } else {
+                        c
+                    }
+                })
+                .collect();
+        }
         let n = self.t.count(0, 8);
         let mut v = Vec::new();
         for _ in 0..n {
